@@ -404,7 +404,7 @@ class BuiltinMixin:
     # ------------------------------------------------------------------ spec-only functions (contract language)
     SPEC_ONLY = {"card", "implies", "iff", "forall", "exists", "subset", "set_eq", "old", "is_class", "keys_of",
                  "ty_is", "same_class", "unchanged", "fresh_obj", "no_effects", "effects", "attr", "sel", "tuple2", "sval", "ival",
-                 "mro_of", "as_dict", "as_list", "as_set", "seq_len", "dict_len", "truthy", "dict_get", "pyeval_str", "at", "is_none"}
+                 "local", "mro_of", "as_dict", "as_list", "as_set", "seq_len", "dict_len", "truthy", "dict_get", "pyeval_str", "at", "is_none"}
     SPEC_CONSTS = {}
 
     def bi_card(self, node, st, fr):
@@ -609,3 +609,21 @@ class BuiltinMixin:
 
     def bi_as_set(self, node, st, fr):
         return SV(self.box(self.ev(node.args[0], st, fr)), "set")
+
+    def bi_local(self, node, st, fr):
+        """local("x"): value of the code's local variable x at the exit under consideration (a ghost exposure).
+        At call sites (callers do not see callee locals) it is an unconstrained value."""
+        name = ast.literal_eval(node.args[0])
+        env = getattr(fr, "exit_env", None)
+        if env is not None and name in env:
+            x = env[name]
+            if x.pt == "any" and fr.contract is not None and name in fr.contract.sorts:
+                x = self.with_sort(x.t, fr.contract.sorts[name])
+            return x
+        if env is not None:
+            raise Untranslatable(f"contract refers to local {name!r} which is not a local of the function any more")
+        cache = fr.__dict__.setdefault("_local_cache", {})
+        if name not in cache:
+            pt = fr.contract.sorts.get(name, "any") if fr.contract is not None else "any"
+            cache[name] = self.fresh_sv("ghost_" + name, pt)
+        return cache[name]
